@@ -127,6 +127,12 @@ DEFAULT_CONFIG_ATTRS = ('self.blocking', 'self.out_edge_selection', 'self.in_edg
 _uid = itertools.count(1)
 
 
+def chain_root_is_self(n) -> bool:
+    while isinstance(n, (ast.Attribute, ast.Subscript)):
+        n = n.value
+    return isinstance(n, ast.Name) and n.id == 'self'
+
+
 def fresh(tag):
     return ('sym', tag, next(_uid))
 
@@ -137,8 +143,11 @@ class Explorer:
                  config_attrs=DEFAULT_CONFIG_ATTRS, relevant: Optional[Callable[[ast.AST], bool]] = None,
                  never_inline: Set[str] = frozenset(), process_loop_once: bool = True,
                  interrupt_edges: bool = True, assume: Optional[Callable] = None, track_attrs: bool = False,
-                 stmt_hook: Optional[Callable] = None, recv: str = 'self', split_bool_returns: bool = False):
+                 stmt_hook: Optional[Callable] = None, recv: str = 'self', split_bool_returns: bool = False,
+                 item_lists=('items', 'ready_items', 'reserved_items')):
         self.p = project
+        # lists whose elements are caller-supplied objects: nothing is known about their truth value (0, '' and [] are legal items)
+        self.item_lists = set(item_lists)
         self.cls_key = cls_key
         self.methods = project.methods(cls_key) if cls_key else {}
         self.tracked = set(tracked)
@@ -308,6 +317,8 @@ class Explorer:
                 res.append((RAISE, s) if vals == RAISE else (('tuple', tuple(vals)), s))
             return res
         if isinstance(node, ast.Subscript):
+            if self.track_attrs and isinstance(node.slice, ast.Constant) and ('cell:' + ast.unparse(node)) in st.env:
+                return [(st.env['cell:' + ast.unparse(node)], st)]
             L = self.tracked_list(node.value)
             if L is not None:
                 res = []
@@ -336,6 +347,9 @@ class Explorer:
                 if ('self.' + a) in st.env:
                     return [(st.env['self.' + a], st)]
                 return [(('self', a), st)]
+            if node.attr == 'now' and isinstance(node.value, (ast.Attribute, ast.Name)) and ast.unparse(node.value).split('.')[-1] in ('env', '_env'):
+                # the simulation clock: constant inside an atomic segment, one symbol per segment
+                return [(('now', st.epoch), st)]
             res = []
             for bv, s in self.ev(node.value, st):
                 res.append((RAISE, s) if bv == RAISE else (('attr', bv, node.attr), s))
@@ -346,6 +360,34 @@ class Explorer:
                 if all(k == '1' for k in l):
                     return [(('const', l.get('1', 0)), st)]
                 return [(('lin', lin.norm(l)), st)]
+            if isinstance(node, ast.BinOp) and isinstance(node.op, (ast.Mult, ast.Div)) \
+                    and not any(isinstance(x, (ast.Call, ast.Yield, ast.YieldFrom)) for x in ast.walk(node)):
+                # products / quotients of symbolic reals: a normal form (numerator factors, denominator factors)
+                res = []
+                for lv, s1 in self.ev(node.left, st):
+                    if lv == RAISE:
+                        res.append((RAISE, s1))
+                        continue
+                    for rv, s2 in self.ev(node.right, s1):
+                        if rv == RAISE:
+                            res.append((RAISE, s2))
+                            continue
+                        res.append((self.prod_combine(lv, rv, isinstance(node.op, ast.Div)), s2))
+                return res
+            if isinstance(node, ast.BinOp) and isinstance(node.op, (ast.Add, ast.Sub)) \
+                    and not any(isinstance(x, ast.Call) for x in ast.walk(node)):
+                # symbolic real-valued arithmetic (times, delays): linear forms over opaque atoms, never used for path pruning
+                res = []
+                for lv, s1 in self.ev(node.left, st):
+                    if lv == RAISE:
+                        res.append((RAISE, s1))
+                        continue
+                    for rv, s2 in self.ev(node.right, s1):
+                        if rv == RAISE:
+                            res.append((RAISE, s2))
+                            continue
+                        res.append((self.num_combine(lv, rv, 1 if isinstance(node.op, ast.Add) else -1, node), s2))
+                return res
             if isinstance(node, ast.BinOp) and isinstance(node.op, (ast.Add, ast.Sub)) \
                     and any(isinstance(x, ast.Call) for x in ast.walk(node)):
                 # operands may be calls of inlinable helpers returning linear forms (e.g. self.occupancy())
@@ -363,7 +405,7 @@ class Explorer:
                             c = lin.ladd(la, lb, 1 if isinstance(node.op, ast.Add) else -1)
                             res.append(((('const', c.get('1', 0)) if all(k == '1' for k in c) else ('lin', lin.norm(c))), s2))
                         else:
-                            res.append((('expr', ast.unparse(node)[:60], next(_uid)), s2))
+                            res.append((self.num_combine(lv, rv, 1 if isinstance(node.op, ast.Add) else -1, node), s2))
                 return res
         if isinstance(node, ast.IfExp):
             res = []
@@ -388,6 +430,65 @@ class Explorer:
 
     def idx_key(self, v):
         return v
+
+    @staticmethod
+    def num_of(v):
+        """linear form {atom: coefficient} of a real-valued symbolic value; atoms are the values themselves"""
+        if v is None:
+            return None
+        if v[0] == 'num':
+            return dict(v[1])
+        if v[0] == 'const':
+            if isinstance(v[1], (int, float)) and not isinstance(v[1], bool):
+                return {('one',): v[1]} if v[1] != 0 else {}
+            return None
+        if v[0] in ('lin', 'tuple', 'list', 'locallist', 'tokenlist', 'newevent', 'proc'):
+            return None
+        return {v: 1}
+
+    @staticmethod
+    def prod_of(v):
+        if v[0] == 'prod':
+            return v[1], list(v[2]), list(v[3])
+        if v[0] == 'const' and isinstance(v[1], (int, float)) and not isinstance(v[1], bool):
+            return v[1], [], []
+        return 1, [v], []
+
+    def prod_combine(self, lv, rv, div):
+        ca, na, da = self.prod_of(lv)
+        cb, nb, db = self.prod_of(rv)
+        if div:
+            nb, db = db, nb
+            if cb == 0:
+                return ('expr', 'division by zero', next(_uid))
+            c = ca / cb
+        else:
+            c = ca * cb
+        num, den = list(na) + list(nb), list(da) + list(db)
+        for x in list(num):
+            if x in den:
+                num.remove(x)
+                den.remove(x)
+        if not num and not den:
+            return ('const', c)
+        if c == 1 and len(num) == 1 and not den:
+            return num[0]
+        return ('prod', c, tuple(sorted(num, key=repr)), tuple(sorted(den, key=repr)))
+
+    def num_combine(self, lv, rv, sign, node):
+        a, b = self.num_of(lv), self.num_of(rv)
+        if a is None or b is None:
+            return ('expr', ast.unparse(node)[:60], next(_uid))
+        out = dict(a)
+        for k, c in b.items():
+            out[k] = out.get(k, 0) + sign * c
+            if out[k] == 0:
+                del out[k]
+        if not out:
+            return ('const', 0)
+        if set(out) == {('one',)}:
+            return ('const', out[('one',)])
+        return ('num', tuple(sorted(out.items(), key=repr)))
 
     def val_lin(self, v):
         if v is None:
@@ -439,6 +540,14 @@ class Explorer:
     def do_yield(self, node, st: St):
         res = []
         val_node = node.value
+        if isinstance(node, ast.YieldFrom) and isinstance(val_node, ast.Call) and isinstance(val_node.func, ast.Attribute) \
+                and isinstance(val_node.func.value, ast.Name) and val_node.func.value.id == 'self':
+            name = val_node.func.attr
+            fi = self.methods.get(name)
+            if fi is not None and fi.is_generator and name not in self.never_inline and name not in self.atomic \
+                    and len(st.frames) <= self.depth and not any(fr.name == name for fr in st.frames):
+                # delegation to a sub-generator of the same object: its suspension points are suspension points of this process
+                return self.inline(fi, val_node, st)
         outs = self.ev(val_node, st) if val_node is not None else [(NONE, st)]
         for v, s in outs:
             if v == RAISE:
@@ -478,6 +587,8 @@ class Explorer:
 
     @staticmethod
     def catches(handler_names: Set[str], exc: str) -> bool:
+        if exc.startswith('<'):
+            return False            # exploration cut, not an exception
         if '*' in handler_names or 'Exception' in handler_names or 'BaseException' in handler_names:
             return True
         short = exc.split('.')[-1]
@@ -639,7 +750,11 @@ class Explorer:
                     continue
                 name = ast.unparse(f)
                 result = ('callres', name[:40], next(_uid))
-                self.emit(s, 'xcall', node, name=name, args=tuple(vals), node=node, result=result)
+                root = f
+                while isinstance(root, ast.Attribute):
+                    root = root.value
+                root_val = s.env.get(root.id) if isinstance(root, ast.Name) else None
+                self.emit(s, 'xcall', node, name=name, args=tuple(vals), node=node, result=result, root_val=root_val)
                 res.append((result, s))
         return res
 
@@ -760,8 +875,8 @@ class Explorer:
                 continue
             saved_env = s.env
             saved_locallen = s.locallen
-            s.env = {}
-            s.locallen = {}
+            s.env = {k: v for k, v in saved_env.items() if k.startswith(('self.', 'cell:'))}
+            s.locallen = {k: v for k, v in saved_locallen.items() if k.startswith('self.')}
             params = [a.arg for a in fi.node.args.args]
             if params and params[0] == 'self':
                 params = params[1:]
@@ -784,10 +899,18 @@ class Explorer:
             for s2, status in self.block(fi.node.body, s):
                 self.emit(s2, 'leave', node, name=fi.name, status=status if isinstance(status, str) else status[0])
                 s2.frames.pop()
-                s2.env = dict(saved_env)
-                s2.locallen = dict(saved_locallen)
+                callee_env, callee_ll = s2.env, s2.locallen
+                s2.env = {k: v for k, v in saved_env.items() if not k.startswith(('self.', 'cell:'))}
+                s2.env.update({k: v for k, v in callee_env.items() if k.startswith(('self.', 'cell:'))})
+                s2.locallen = {k: v for k, v in saved_locallen.items() if not k.startswith('self.')}
+                s2.locallen.update({k: v for k, v in callee_ll.items() if k.startswith('self.')})
                 if isinstance(status, tuple) and status[0] == 'raise':
                     s2.ret = ('exc', status[1])
+                    res.append((RAISE, s2))
+                    continue
+                if status in ('loopcut', 'backedge'):
+                    # exploration bound reached inside the callee: the path ends here (never continued as if the loop had finished)
+                    s2.ret = ('exc', f'<{status}>')
                     res.append((RAISE, s2))
                     continue
                 val = s2.ret if status == 'return' else NONE
@@ -850,7 +973,22 @@ class Explorer:
         """Value of a side-effect free expression without consuming the state (None if it has effects)."""
         if isinstance(node, ast.Name):
             return st.env.get(node.id, ('name', node.id))
+        if isinstance(node, ast.Subscript) and self.track_attrs and isinstance(node.slice, ast.Constant) and ('cell:' + ast.unparse(node)) in st.env:
+            return st.env['cell:' + ast.unparse(node)]
+        if isinstance(node, ast.Subscript) and self.tracked_list(node.value) is None:
+            bv = self.pure_value(node.value, st)
+            iv = self.pure_value(node.slice, st)
+            if bv is not None and iv is not None:
+                if bv[0] == 'tuple' and iv[0] == 'const' and isinstance(iv[1], int) and -len(bv[1]) <= iv[1] < len(bv[1]):
+                    return bv[1][iv[1]]
+                return ('sub', bv, iv)
+        if isinstance(node, ast.Tuple):
+            vs = [self.pure_value(e, st) for e in node.elts]
+            if all(v is not None for v in vs):
+                return ('tuple', tuple(vs))
         if isinstance(node, ast.Subscript):
+            if self.track_attrs and isinstance(node.slice, ast.Constant) and ('cell:' + ast.unparse(node)) in st.env:
+                return [(st.env['cell:' + ast.unparse(node)], st)]
             L = self.tracked_list(node.value)
             if L is not None:
                 iv = self.pure_value(node.slice, st)
@@ -862,6 +1000,11 @@ class Explorer:
             a = self_attr(node)
             if a is not None:
                 return st.env.get('self.' + a, ('self', a))
+            if node.attr == 'now' and ast.unparse(node.value).split('.')[-1] in ('env', '_env'):
+                return ('now', st.epoch)
+            bv = self.pure_value(node.value, st)
+            if bv is not None:
+                return ('attr', bv, node.attr)
         l = self.try_lin(node, st) if isinstance(node, (ast.BinOp, ast.Call)) else None
         if l is not None:
             return ('lin', lin.norm(l))
@@ -872,7 +1015,11 @@ class Explorer:
             return None
         if v[0] == 'const':
             return bool(v[1])
-        if v[0] in ('found', 'newevent', 'proc', 'presult') or (v[0] == 'elem'):
+        if v[0] == 'elem':
+            return None if v[1] in self.item_lists else True
+        if v[0] == 'found':
+            return None if str(v[1]).rsplit('.', 1)[-1] in self.item_lists else True
+        if v[0] in ('newevent', 'proc', 'presult'):
             return True
         return None
 
@@ -992,11 +1139,14 @@ class Explorer:
                 continue
             atoms_t = self.atoms_of(node, True, s)
             atoms_f = self.atoms_of(node, False, s)
+            operands = None
+            if isinstance(node, ast.Compare) and len(node.ops) == 1:
+                operands = (type(node.ops[0]).__name__, self.pure_value(node.left, s), self.pure_value(node.comparators[0], s))
             s_t = s
             s_f = s.clone()
             for b, s2, atoms in ((True, s_t, atoms_t), (False, s_f, atoms_f)):
                 s2.facts[key] = b
-                self.emit(s2, 'cond', node, node=node, text=key, polarity=b, atoms=atoms, synthetic=False)
+                self.emit(s2, 'cond', node, node=node, text=key, polarity=b, atoms=atoms, synthetic=False, operands=operands)
                 self.learn(node, b, s2)
                 outs.append((b, s2))
         return outs
@@ -1087,7 +1237,12 @@ class Explorer:
                 st.ver[L] = st.ver.get(L, 0) + 1
                 self.emit(st, 'rebind', node, list=L, value=val)
         elif isinstance(t, ast.Subscript):
-            self.emit(st, 'setitem', node, target=ast.unparse(t), base=ast.unparse(t.value), value=val, aug=aug, node=node)
+            key_val = self.pure_value(t.slice, st)
+            base_val = self.pure_value(t.value, st)
+            self.emit(st, 'setitem', node, target=ast.unparse(t), base=ast.unparse(t.value), value=val, aug=aug, node=node,
+                      key_val=key_val, base_val=base_val)
+            if self.track_attrs and isinstance(t.slice, ast.Constant) and chain_root_is_self(t.value):
+                st.env['cell:' + ast.unparse(t)] = val
             L = self.tracked_list(t.value)
             if L is not None:
                 st.ver[L] = st.ver.get(L, 0) + 1
@@ -1144,6 +1299,16 @@ class Explorer:
                         if rhs is not None:
                             l = lin.ladd(le[n.target.id], rhs, 1 if isinstance(n.op, ast.Add) else -1)
                             newv = ('const', l.get('1', 0)) if all(k == '1' for k in l) else ('lin', lin.norm(l))
+                    if newv[0] == 'sym' and cur is not None:
+                        nv = self.num_combine(cur, v, 1 if isinstance(n.op, ast.Add) else -1, n)
+                        if nv[0] in ('num', 'const'):
+                            newv = nv
+                if newv[0] == 'sym' and self.track_attrs and isinstance(n.op, (ast.Add, ast.Sub)) and isinstance(n.target, (ast.Attribute, ast.Subscript)):
+                    cur = self.pure_value(n.target, s)
+                    if cur is not None:
+                        nv = self.num_combine(cur, v, 1 if isinstance(n.op, ast.Add) else -1, n)
+                        if nv[0] in ('num', 'const'):
+                            newv = nv
                 self.assign_target(n.target, newv, s, n, aug=(type(n.op).__name__, v))
                 res.append((s, 'normal'))
             return res
@@ -1350,4 +1515,9 @@ class Explorer:
         self.do_assume(st, fi.node, 'at entry')
         out = self.block(fi.node.body, st)
         self.npaths += len(out)
-        return [Path(status, s, fi) for s, status in out]
+        fixed = []
+        for s, status in out:
+            if isinstance(status, tuple) and status[0] == 'raise' and status[1] in ('<loopcut>', '<backedge>'):
+                status = status[1][1:-1]
+            fixed.append((s, status))
+        return [Path(status, s, fi) for s, status in fixed]
